@@ -40,7 +40,8 @@ def plan(tier, seed):
                       "rounds": 12 if tier == "quick" else 400})
     for i in range(2 if tier == "quick" else 8):
         specs.append({"name": f"insitu{i}", "kind": "insitu", "index": i, "rounds": 3 if tier == "quick" else 150})
-    return specs
+    from vlib.common import both_interpreter_modes
+    return both_interpreter_modes(specs)
 
 
 def run_shard(spec, acc, ctx):
